@@ -2,7 +2,7 @@
    _handle_delete over the filesystem model (after the fix: commits).  handle, try_indices and handle_upload are
    the definitions the translated source was proved equal to without hypotheses (Equiv/EquivStatic.v). *)
 From Coq Require Import List NArith ZArith Bool.
-From NV Require Import Prelude.Str Prelude.Res Prelude.Utf8 Model.Fs.
+From NV Require Import Prelude.Str Prelude.Res Prelude.Utf8 Model.Fs Model.Listing.
 Import ListNotations.
 Open Scope N_scope.
 
@@ -90,8 +90,10 @@ Fixpoint try_indices (c : scfg) (f : fs) (d : path) (idx : list str) : option so
       end
   end.
 
+(* generate_directory_listing raises exactly when stat() of an entry of d fails (Model/Listing.v: has_broken, with the
+   kernel's path resolution; Proofs/C02_listing.v listing_static: OListing d <-> the listing text exists) *)
 Definition listing (f : fs) (d : path) : sout :=
-  if existsb (fun ch => match follow f (d ++ [fst ch]) with None => true | Some _ => false end) (children f d)
+  if has_broken f d
   then OStatus 40 (lit "Error generating directory listing")
   else OListing d.
 
